@@ -92,6 +92,11 @@ type ExecDbl struct {
 	// it gives up when the context it was called with ends.
 	GetTxsLatency time.Duration
 
+	// Ref, when set, is a REAL execution layer (the reference KVExecutor of apps/testapp on a namespace of
+	// the node's datastore): chain initialisation, state transitions and finalisation are delegated to
+	// it; the double keeps the mempool, the call log, the scripted failures and the latencies.
+	Ref coreexecutor.Executor
+
 	dead func() bool
 }
 
@@ -107,7 +112,12 @@ func NewExecDbl(label string) *ExecDbl {
 func (e *ExecDbl) SetDeadFn(f func() bool) { e.dead = f }
 
 // GenesisRoot is the root InitChain returns.
-func (e *ExecDbl) GenesisRoot() []byte { return append([]byte(nil), e.genesis...) }
+func (e *ExecDbl) GenesisRoot() []byte {
+	if e.Ref != nil {
+		return []byte{} // the reference executor's root of an empty database
+	}
+	return append([]byte(nil), e.genesis...)
+}
 
 // NextRoot is the pure state-transition function of the double.
 func NextRoot(prev []byte, txs [][]byte) []byte {
@@ -131,6 +141,15 @@ func (e *ExecDbl) InitChain(ctx context.Context, genesisTime time.Time, initialH
 	e.mu.Lock()
 	defer e.mu.Unlock()
 	e.inited = true
+	if e.Ref != nil {
+		root, gas, err := e.Ref.InitChain(ctx, genesisTime, initialHeight, chainID)
+		call := ExecCall{Op: "init", Height: initialHeight, Root: root}
+		if err != nil {
+			call.Err = err.Error()
+		}
+		e.calls = append(e.calls, call)
+		return root, gas, err
+	}
 	e.calls = append(e.calls, ExecCall{Op: "init", Height: initialHeight, Root: e.genesis})
 	return append([]byte(nil), e.genesis...), 1 << 20, nil
 }
@@ -180,6 +199,14 @@ func (e *ExecDbl) ExecuteTxs(ctx context.Context, txs [][]byte, blockHeight uint
 		return nil, 0, errors.New("execdbl: scripted execution failure")
 	}
 	root := NextRoot(prevStateRoot, txs)
+	if e.Ref != nil {
+		var err error
+		if root, _, err = e.Ref.ExecuteTxs(ctx, txs, blockHeight, timestamp, prevStateRoot); err != nil {
+			call.Err = err.Error()
+			e.calls = append(e.calls, call)
+			return nil, 0, err
+		}
+	}
 	call.Root = root
 	e.calls = append(e.calls, call)
 	// remove executed txs from the mempool (one occurrence each)
@@ -220,6 +247,13 @@ func (e *ExecDbl) SetFinal(ctx context.Context, blockHeight uint64) error {
 		call.Err = "scripted"
 		e.calls = append(e.calls, call)
 		return errors.New("execdbl: scripted finalize failure")
+	}
+	if e.Ref != nil {
+		if err := e.Ref.SetFinal(ctx, blockHeight); err != nil {
+			call.Err = err.Error()
+			e.calls = append(e.calls, call)
+			return err
+		}
 	}
 	e.calls = append(e.calls, call)
 	return nil
@@ -271,6 +305,21 @@ type SeqResp struct {
 	DeltaNs int64 `json:"delta_ns,omitempty"`
 	// BatchData is the opaque cursor returned with the batch.
 	BatchData [][]byte `json:"batch_data,omitempty"`
+	// Blowup > 0: every (non-empty) transaction is repeated until it is at least this many bytes long when
+	// the batch is handed out (megabyte batches from a short description).
+	Blowup int `json:"blowup,omitempty"`
+}
+
+// EffTxs is the transaction list the response hands out.
+func (r SeqResp) EffTxs() [][]byte {
+	txs := make([][]byte, len(r.Txs))
+	for i, tx := range r.Txs {
+		txs[i] = append([]byte(nil), tx...)
+		if r.Blowup > 0 && len(tx) > 0 && len(tx) < r.Blowup {
+			txs[i] = bytes.Repeat(tx, (r.Blowup+len(tx)-1)/len(tx))
+		}
+	}
+	return txs
 }
 
 // SeqCall is one logged GetNextBatch call.
@@ -341,11 +390,7 @@ func (s *SeqDbl) GetNextBatch(ctx context.Context, req coresequencer.GetNextBatc
 	case "empty":
 		return &coresequencer.GetNextBatchResponse{Batch: &coresequencer.Batch{}, Timestamp: ts, BatchData: r.BatchData}, nil
 	case "txs":
-		txs := make([][]byte, len(r.Txs))
-		for i, tx := range r.Txs {
-			txs[i] = append([]byte(nil), tx...)
-		}
-		return &coresequencer.GetNextBatchResponse{Batch: &coresequencer.Batch{Transactions: txs}, Timestamp: ts, BatchData: r.BatchData}, nil
+		return &coresequencer.GetNextBatchResponse{Batch: &coresequencer.Batch{Transactions: r.EffTxs()}, Timestamp: ts, BatchData: r.BatchData}, nil
 	case "error":
 		return nil, errors.New("seqdbl: scripted failure")
 	}
